@@ -192,7 +192,7 @@ fn classify(op: Op, cfg: &Cfg, exp: &Snap, got: &Snap, exp_res: &str, got_res: &
     let expiry = cfg.ttl.is_some() || cfg.tti.is_some();
     if !errs.is_empty() {
         let dirty_only = errs.iter().all(|e| e.starts_with("DIRTY"));
-        return Some(Finding { tags: if dirty_only { "C12,C05,C06,C11" } else { "C11,C08,C10" }, what: format!("list/map structure after maintenance: {}", errs.join("; ")) });
+        return Some(Finding { tags: if dirty_only { "C12,C05,C06,C11,C04" } else { "C11,C08,C10" }, what: format!("list/map structure after maintenance: {}", errs.join("; ")) });
     }
     if exp_res != got_res { return Some(Finding { tags: if expiry { "C01,C05,C06,C03,C07" } else { "C01,C03,C07" }, what: format!("result of {:?}: expected {} got {}", op, exp_res, got_res) }); }
     if exp.va != got.va { return Some(Finding { tags: "C07", what: format!("invalidate_all watermark after {:?} differs from the specification", op) }); }
@@ -259,7 +259,7 @@ fn exec(c: &C, mock: &crate::common::time::clock::Mock, op: Op) -> String {
 fn policy_mismatch(c: &C, cfg: &Cfg) -> Option<(usize, Finding)> {
     let pol = c.policy();
     if pol.max_capacity() != cfg.cap || pol.time_to_live() != cfg.ttl.map(Duration::from_nanos) || pol.time_to_idle() != cfg.tti.map(Duration::from_nanos) {
-        return Some((0, Finding { tags: "C17", what: format!("policy() reports ({:?}, {:?}, {:?})", pol.max_capacity(), pol.time_to_live(), pol.time_to_idle()) }));
+        return Some((0, Finding { tags: "C17,C05,C06,C04", what: format!("policy() reports ({:?}, {:?}, {:?})", pol.max_capacity(), pol.time_to_live(), pol.time_to_idle()) }));
     }
     None
 }
@@ -301,6 +301,8 @@ pub fn run_history_b2(cfg: Cfg, ops: &[Op], late: bool) -> Option<(usize, Findin
     let (c, mock) = build(cfg);
     if late { mock.increment(Duration::from_secs(1)); }
     let mut written: Vec<u8> = Vec::new();
+    // the write records still queued, oldest first: (key, 0 = first write of a key that was not in the map, 1 = overwrite, 2 = removal)
+    let mut queue: Vec<(u8, u8)> = Vec::new();
     // reference: key -> (value, weight, last write reading, last access reading, last access reading that maintenance is
     // known to have applied). C03: "on the concurrent cache the idle-timer extension of a get is only guaranteed once pending
     // maintenance has run": a hit may rely on the latest access (soundness, C06), a live entry must be returned only on the
@@ -316,6 +318,16 @@ pub fn run_history_b2(cfg: Cfg, ops: &[Op], late: bool) -> Option<(usize, Findin
             match refm[k as usize] { Some((v, _w, tm, _, ta_applied)) if !hidden(&cfg, va, ta_applied, tm, now) => Some(v), _ => None }
         };
         let mut sync_after = false;
+        let mut q_before: Vec<(u8, u8)> = Vec::new();
+        if let Op::Insert(k, _) | Op::Invalidate(k) = *op {
+            let pk0 = peek(&c.base);
+            let n = pk0.pending_writes.min(queue.len());
+            queue = queue[queue.len() - n..].to_vec();
+            q_before = queue.clone();
+            let present = pk0.map.iter().any(|e| e.key == k);
+            match *op { Op::Insert(..) => queue.push((k, if present { 1 } else { 0 })), _ => { if present { queue.push((k, 2)); } } }
+        }
+        if let Op::Sync = *op { queue.clear(); }
         if late {
             // The window "an entry of the map has been overwritten (its shared EntryInfo already carries the new weight and
             // stamps) but the write record is still queued" is where the concurrent cache is known to be broken (family
@@ -323,15 +335,15 @@ pub fn run_history_b2(cfg: Cfg, ops: &[Op], late: bool) -> Option<(usize, Findin
             // queued record later re-admits nodes for a key that is gone, an older record's rejection removes the newer entry).
             // Outside the start-up window nothing runs maintenance inside `insert`, so the harness cannot recognise the family
             // by its runtime observation. This regime therefore keeps that window closed -- an insert that OVERWRITES a map entry
-            // is wrapped in maintenance runs, and so is a second write of a key whose first write is still queued -- and
-            // explores everything else that can stay queued: reads, first writes, removals, several keys.
+            // is wrapped in maintenance runs, and so is a second write of a key whose first write is still queued (also
+            // after an invalidate: the older record's rejection would remove the newer entry) -- and explores everything else
+            // that can stay queued: reads, first writes, removals, re-inserts after an applied write, several keys.
             match *op {
                 Op::Insert(k, _) => {
                     let overwrite = peek(&c.base).map.iter().any(|e| e.key == k);
                     if overwrite || written.contains(&k) { c.sync(); written.clear(); sync_after = overwrite; }
                     if !overwrite { written.push(k); }
                 }
-                Op::Invalidate(k) => { written.push(k); }
                 Op::Sync => { written.clear(); }
                 _ => {}
             }
@@ -343,7 +355,7 @@ pub fn run_history_b2(cfg: Cfg, ops: &[Op], late: bool) -> Option<(usize, Findin
             let a = peek(&c.base);
             let same = a.p == b.p && a.wo == b.wo && a.ec == b.ec && a.ws == b.ws && a.freqs == b.freqs && a.pending_reads == b.pending_reads && a.pending_writes == b.pending_writes
                 && a.map.len() == b.map.len() && a.map.iter().zip(b.map.iter()).all(|(x, y)| x.key == y.key && x.value == y.value && x.weight == y.weight && x.ta == y.ta && x.tm == y.tm && x.admitted == y.admitted && x.dirty == y.dirty);
-            if !same { return Some((i, Finding { tags: "C15", what: format!("{:?} changed the state of the cache or its queued maintenance ({} -> {} queued reads, {} -> {} queued writes)", op, b.pending_reads, a.pending_reads, b.pending_writes, a.pending_writes) })); }
+            if !same { return Some((i, Finding { tags: if a.pending_reads != b.pending_reads || a.freqs != b.freqs { "C15,C14" } else { "C15" }, what: format!("{:?} changed the state of the cache or its queued maintenance ({} -> {} queued reads, {} -> {} queued writes)", op, b.pending_reads, a.pending_reads, b.pending_writes, a.pending_writes) })); }
         }
         match *op {
             Op::Insert(k, v) => {
@@ -355,7 +367,15 @@ pub fn run_history_b2(cfg: Cfg, ops: &[Op], late: bool) -> Option<(usize, Findin
                 // entry written by this call is already gone (or is not ours) when the call returns.
                 let pk = peek(&c.base);
                 if !pk.map.iter().any(|e| e.key == k && e.value == v) {
-                    return Some((i, Finding { tags: "C03,C10,C11", what: format!("pattern=KF-SYNC-1 the entry written by insert({}, {}) was removed by the maintenance run inside the same call, before its write record was queued", k, v) }));
+                    // What the family covers on the pinned code: the entry expires at once (a zero duration), or a queued record
+                    // makes an admission / rejection decision (a first write of any key) or belongs to the same key (it clears
+                    // the dirty flag that protects the new entry from size eviction). Without any of these nothing in the
+                    // unchanged maintenance can select an entry whose update is in flight: that is a different defect.
+                    let family = cfg.ttl == Some(0) || cfg.tti == Some(0) || q_before.iter().any(|(qk, kind)| *kind == 0 || (*qk == k && *kind != 2));
+                    if family {
+                        return Some((i, Finding { tags: "C03,C10,C11", what: format!("pattern=KF-SYNC-1 the entry written by insert({}, {}) was removed by the maintenance run inside the same call, before its write record was queued", k, v) }));
+                    }
+                    return Some((i, Finding { tags: "C03,C10,C11,C12,C04", what: format!("the entry written by insert({}, {}) was removed by the maintenance run inside the same call although no queued record could select it (queued before the call: {:?}; no zero duration): an entry whose update is in flight was evicted", k, v, q_before) }));
                 }
             }
             Op::Invalidate(k) => { refm[k as usize] = None; }
@@ -389,7 +409,7 @@ pub fn run_history_b2(cfg: Cfg, ops: &[Op], late: bool) -> Option<(usize, Findin
                 let pk = peek(&c.base);
                 let mut errs = Vec::new();
                 let s = snap_of(&pk, &mut errs, &cfg);
-                if !errs.is_empty() { return Some((i, Finding { tags: "C11,C08,C10", what: format!("after sync(): {}", errs.join("; ")) })); }
+                if !errs.is_empty() { return Some((i, Finding { tags: if errs.iter().all(|e| e.starts_with("DIRTY")) { "C12,C05,C06,C11,C04" } else { "C11,C08,C10" }, what: format!("after sync(): {}", errs.join("; ")) })); }
                 let held: u64 = pk.map.iter().map(|e| e.weight as u64).sum();
                 if pk.ec != pk.map.len() as u64 { return Some((i, Finding { tags: "C10", what: format!("entry_count {} but the map holds {} entries after sync()", pk.ec, pk.map.len()) })); }
                 if pk.ws != held { return Some((i, Finding { tags: "C10,C03,C04", what: format!("weighted_size {} but the map holds weight {} after sync()", pk.ws, held) })); }
@@ -438,6 +458,41 @@ fn shrink(cfg: Cfg, ops: Vec<Op>, tags: &'static str, regime: u8) -> Vec<Op> {
     }
 }
 
+
+/// C17 on a grid of configurations: policy() echoes what the builder was given, `new(n)` is `builder().max_capacity(n).build()`,
+/// and `build` / `build_with_hasher` panic exactly when a duration exceeds 1000 years
+fn config_grid() -> Vec<String> {
+    use std::panic::{catch_unwind, AssertUnwindSafe};
+    let mut bad = Vec::new();
+    let y1000 = Duration::from_secs(1000 * 365 * 24 * 3600);
+    let caps = [0u64, 1, 7, 1 << 32, u64::MAX - u32::MAX as u64 - 1, u64::MAX - u32::MAX as u64, u64::MAX - u32::MAX as u64 + 1, u64::MAX - 1, u64::MAX];
+    let durs = [None, Some(Duration::from_nanos(0)), Some(Duration::from_nanos(1)), Some(y1000)];
+    for cap in caps.iter().map(|c| Some(*c)).chain(std::iter::once(None)) {
+        for ttl in durs { for tti in durs { for init in [None, Some(0usize), Some(3)] { for hasher in [false, true] {
+            let mk = || { let mut b = Cache::<u8, u8>::builder();
+                if let Some(c) = cap { b = b.max_capacity(c); } if let Some(d) = ttl { b = b.time_to_live(d); } if let Some(d) = tti { b = b.time_to_idle(d); }
+                if let Some(i) = init { b = b.initial_capacity(i); } b };
+            let pol = if hasher { mk().build_with_hasher(IdBuild).policy() } else { mk().build().policy() };
+            if pol.max_capacity() != cap || pol.time_to_live() != ttl || pol.time_to_idle() != tti {
+                bad.push(format!("builder(cap {:?}, ttl {:?}, tti {:?}, initial {:?}, custom hasher {}) -> policy() reports ({:?}, {:?}, {:?})", cap, ttl, tti, init, hasher, pol.max_capacity(), pol.time_to_live(), pol.time_to_idle()));
+            }
+        }}}}
+        if let Some(c) = cap {
+            let p = Cache::<u8, u8>::new(c).policy();
+            if p.max_capacity() != Some(c) || p.time_to_live().is_some() || p.time_to_idle().is_some() { bad.push(format!("new({}) -> policy() reports ({:?}, {:?}, {:?})", c, p.max_capacity(), p.time_to_live(), p.time_to_idle())); }
+        }
+    }
+    let over = y1000 + Duration::from_nanos(1);
+    let hook = std::panic::take_hook(); std::panic::set_hook(Box::new(|_| {}));
+    for (ttl, tti) in [(Some(over), None), (None, Some(over)), (Some(over), Some(over)), (Some(y1000), Some(over))] { for hasher in [false, true] {
+        let r = catch_unwind(AssertUnwindSafe(|| { let mut b = Cache::<u8, u8>::builder().max_capacity(10);
+            if let Some(d) = ttl { b = b.time_to_live(d); } if let Some(d) = tti { b = b.time_to_idle(d); }
+            if hasher { let _ = b.build_with_hasher(IdBuild); } else { let _ = b.build(); } }));
+        if r.is_ok() { bad.push(format!("builder(ttl {:?}, tti {:?}, custom hasher {}) did not panic although a duration exceeds 1000 years", ttl, tti, hasher)); }
+    }}
+    std::panic::set_hook(hook);
+    bad
+}
 #[test]
 fn verif_rt_sync() {
     let tier = std::env::var("VERIF_RT_TIER").unwrap_or_else(|_| "quick".into());
@@ -501,6 +556,10 @@ fn verif_rt_sync() {
                 vec![Op::Insert(k, v), Op::Sync, Op::Get(k), Op::Advance(d), Op::InvalidateAll, Op::Advance(d), Op::Insert(k, v + 1), Op::Sync, Op::Get(k), Op::Contains(k), Op::Iter],
                 vec![Op::Insert(k, v), Op::Sync, Op::Get(k), Op::Advance(d), Op::Invalidate(k), Op::Insert(k, v + 1), Op::Sync, Op::Advance(d), Op::Get(k), Op::Contains(k), Op::Iter],
                 vec![Op::Insert(k, v), Op::Get(k), Op::Advance(d), Op::Insert(k, v + 1), Op::Advance(d), Op::Sync, Op::Get(k), Op::Iter],
+                // the old node of a key is expired / behind the watermark while the key is invalidated and re-inserted before the next maintenance run
+                vec![Op::Insert(k, v), Op::Sync, Op::Advance(d), Op::InvalidateAll, Op::Advance(d), Op::Invalidate(k), Op::Insert(k, v + 1), Op::Sync, Op::Get(k), Op::Contains(k), Op::Iter, Op::Sync, Op::Iter],
+                vec![Op::Insert(k, v), Op::Insert(j, v), Op::Sync, Op::Advance(10), Op::Invalidate(k), Op::Insert(k, v + 1), Op::Advance(d), Op::Sync, Op::Get(k), Op::Contains(k), Op::Iter, Op::Sync, Op::Iter],
+                vec![Op::Insert(k, v), Op::Sync, Op::Advance(d), Op::Get(k), Op::Invalidate(k), Op::Advance(d), Op::Insert(k, v + 1), Op::Insert(j, v), Op::Sync, Op::Get(k), Op::Iter],
             ];
             for t in &templates {
                 for regime in [0u8, 1, 2] {
@@ -512,6 +571,7 @@ fn verif_rt_sync() {
             }
         }}}
     }
+    for b in config_grid() { println!("RT-FAIL tags=C17 what=[sync cache] {} cfg=- failing_op_index=0 history=[]", b); findings += 1; if findings >= 3 { break; } }
     println!("RT-SUMMARY harness=sync tier={} seed={} histories={} steps={} configs={} alphabet={} exhaustive_len={} sampled={}x{} findings={}",
         tier, seed, histories, steps, cfgs.len(), ops_a.len(), exh_len, rnd_n, rnd_len, findings);
     assert!(findings == 0, "runtime check of the concurrent cache (sequential histories) found {} violation(s)", findings);
